@@ -12,6 +12,7 @@ CONSTANTS
   MaxSteps = 6
   AutoPoll = TRUE
   AllowPark = FALSE
+  EmitAll = TRUE
 SPECIFICATION GSpec
 INVARIANTS GenSafe Emit
 VIEW CoverView
